@@ -193,7 +193,7 @@ theorem transG_all (hl : ∀ s, (cfg.lower s).length = s.length) : ∀ n, TransG
     nesting) only with the Struct-from-Hash rule off.  `Ty.TS true` is `Ty.TF` plus Iterable. -/
 def Ty.TS (sfh : Bool) (t : Ty) : Prop :=
   match t with
-  | .unit | .data | .richData => False
+  | .unit | .data | .richData | .callable _ _ _ => False
   | .struct ms => sfh = false ∧ ∀ m, ∀ (_ : m ∈ ms), Ty.TS sfh m.2.2
   | .tuple ts _ => ∀ t', ∀ (_ : t' ∈ ts), Ty.TS sfh t'
   | .array e _ => Ty.TS sfh e
